@@ -48,6 +48,7 @@ class TLCResult:
         self.deadlock = False
         self.errors = []
         self.coverage = {}        # action name -> (distinct, total)
+        self.disjuncts = {}       # action name -> {location: (distinct, total)}  (sub-actions of a disjunction)
         self._scan()
 
     def _scan(self):
@@ -55,7 +56,7 @@ class TLCResult:
         re_depth = re.compile(r"^The depth of the complete state graph search is (\d+)")
         re_inv = re.compile(r"^Error: Invariant (\S+) is violated")
         re_prop = re.compile(r"^Error: Action property (\S+) is violated")
-        re_cov = re.compile(r"^<(\w+) line \d+, col \d+ to line \d+, col \d+ of module (\w+)(?: \([\d ]+\))?>: (\d+):(\d+)")
+        re_cov = re.compile(r"^<(\w+) line \d+, col \d+ to line \d+, col \d+ of module (\w+)(?: \(([\d ]+)\))?>: (\d+):(\d+)")
         with open(self.out_path, errors="replace") as f:
             for line in f:
                 if line.startswith('"'):
@@ -75,9 +76,11 @@ class TLCResult:
                 m = re_cov.match(line)
                 if m:
                     name = m.group(1)
-                    d, t = int(m.group(3)), int(m.group(4))
+                    d, t = int(m.group(4)), int(m.group(5))
                     a = self.coverage.get(name, (0, 0))
                     self.coverage[name] = (a[0] + d, a[1] + t)
+                    if m.group(3):
+                        self.disjuncts.setdefault(name, {})[m.group(3)] = (d, t)
                     continue
                 if line.startswith("Error: Deadlock reached"):
                     self.deadlock = True
